@@ -164,7 +164,9 @@ def scenario(sim):
             run_case(sim, s, case, fi)
     finally:
         s.close()
-    return {"sample": describe(first), "nontrivial": True, "counts": [first["mode"], bufclass(first["bufsize"])]}
+    # distinct = distinct (mode, buffer class, pipelined, operation-kind sequence) of the first file's program
+    return {"sample": describe(first), "nontrivial": len(first["program"]) > 1, "case_key": pattern(first),
+            "counts": [first["mode"], bufclass(first["bufsize"])]}
 
 
 def describe(case):
